@@ -68,7 +68,7 @@ TEXT["C08"] = dict(
 TEXT["C12"] = dict(
     level="Byte-level reference and membership runtime monitoring: conversions of 53 net.IP shapes (nil, every length 0..20, 4-byte/16-byte/mapped forms) x 477 masks (canonical, every single-hole, stray-one, nil, wrong length) x 3 functions, with subnet membership compared on boundary and bit-flip probe addresses, arguments checked for immutability, every other conversion made through a *net.IPNet value that was converted before with other contents, TCP/UDP/IP/Unix/custom net.Addr kinds with zones and out-of-range ports, and every slice up to length 5/6 over a 12-address pool sorted with both comparators. Exploration.",
     note="Trusts net.IPNet.Contains, netip.Prefix.Contains and netip.Addr.Compare. IPv4-mapped 16-byte probe addresses are excluded from the IPv6 membership comparison because package net and package netip disagree about them independently of golibs.",
-    technique="runtime differential monitor (byte-level reference, membership probes, reference sort order)",
+    technique="runtime differential monitor (byte-level reference, membership probes, reference sort order) + Go race detector over concurrent callers",
 )
 
 TEXT["C01"] = dict(
